@@ -246,6 +246,28 @@ def step (st : Unit) (j : Json) : Unit × Json :=
             ("val_losses", Json.arr (st.valLosses.map floatToJson).toArray),
             ("pos", Json.num (JsonNumber.fromNat st.rng.gen.pos))])
         pure ((), okJson (Json.arr outs))
+    | "cfg_seq" =>
+        -- a sequence of configuration calls on one session (Model/Batcher.lean `applyCall`): after every call whether it
+        -- was rejected and what the session holds
+        let calls ← arrField j "calls"
+        let b0 ← natField j "batch_size"
+        let mut s : Session Nat Float := { recon := { rng := { rngSeed := some 1, gen := { seed := 1, pos := 0 } }, params := 0,
+                                                      initParams := 0, iterLosses := [], valLosses := [] },
+                                           batchSize := b0, valRatio := 0.0, valMode := .grid }
+        let mut outs : Array Json := #[]
+        for c in calls do
+          let kind ← strField c "kind"
+          let v := cfgValOf c "value"
+          let call : CfgCall := match kind with
+            | "batch_size" => .batchSize v
+            | "val_ratio" => .valRatio v
+            | "val_mode" => .valMode v
+            | _ => .rng v
+          let r := applyCall 0 s call
+          s := r.1
+          outs := outs.push (Json.mkObj [("rejected", Json.bool r.2), ("batch_size", Json.num (JsonNumber.fromNat s.batchSize)),
+            ("val_ratio", floatToJson s.valRatio), ("val_mode", Json.str (match s.valMode with | .grid => "grid" | .random => "random"))])
+        pure ((), okJson (Json.arr outs))
     | "cfg_call" =>
         -- accept / reject decision of a configuration setter (Model/Batcher.lean `applyCall`)
         let kind ← strField j "kind"
